@@ -12,7 +12,7 @@ def CFG_skip(skip=()):
 CFG = CFG_skip()
 
 
-SPECIAL = {"L_once": ("C10", "C04"), "A_sealed": ("C03",), "A_clisealed": ("C03",), "T_srvdrops": ("C12", "C10"), "T_srvdrop": ("C12", "C10")}
+SPECIAL = {"L_once": ("C10", "C04"), "A_echo": ("C11", "C10"), "A_sealed": ("C03",), "A_clisealed": ("C03",), "T_srvdrops": ("C12", "C10"), "T_srvdrop": ("C12", "C10")}
 
 
 def props_of(clause):
